@@ -6,11 +6,13 @@ connect() blocks like the real ones, against the Noise responder double.  A refe
 with generated event histories; probes record the network layer's announcements, dispatcher calls and what reaches the top.
 """
 from .. import compat  # noqa: F401
+import errno
 from ..core import Outcome
 from ..kit import transport as TR
 from ..kit import sched as S
 from ..kit import protokit
 from ..kit import stackkit
+from ..kit.netkit import AsyncoreShim as _AsyncoreShim, driven_asyncore_class as _driven_asyncore_class
 from ..ref import codec as R
 from hypothesis import strategies as st
 
@@ -96,7 +98,7 @@ def build(case):
     return rig
 
 
-class _AsyncDispatcher(object):
+class _DoubleDispatcher(object):
     """dispatcher double in the style of the default (asyncore) dispatcher: connect() returns at once, the outcome of the connection
     attempt and everything else is reported later by the event loop - here: when the history says so"""
     made = []
@@ -107,11 +109,11 @@ class _AsyncDispatcher(object):
         self.state = "new"       # new -> pending -> up -> closed
         self.written = []
         self.written_while_not_up = 0
-        _AsyncDispatcher.made.append(self)
+        _DoubleDispatcher.made.append(self)
 
     def connect(self, host):
-        if _AsyncDispatcher.fail_next_connect:
-            _AsyncDispatcher.fail_next_connect = False
+        if _DoubleDispatcher.fail_next_connect:
+            _DoubleDispatcher.fail_next_connect = False
             self.state = "closed"
             raise IOError("Name or service not known")
         self.state = "pending"
@@ -127,6 +129,22 @@ class _AsyncDispatcher(object):
             self.written_while_not_up += 1
             return
         self.written.append(bytes(data))
+
+    # what the event loop reports, when the history says so
+    def h_establish(self):
+        self.state = "up"
+        self.cb.onConnected()
+
+    def h_refuse(self):
+        self.state = "closed"
+        self.cb.onConnectionError(IOError("connection refused"))
+
+    def h_peer_close(self):
+        self.state = "closed"
+        self.cb.onDisconnected()
+
+    def h_data(self, data):
+        self.cb.onRecvData(data)
 
 
 class _NetTop(YowLayer):
@@ -152,12 +170,21 @@ def _run_net_async(case, out):
     import yowsup.layers.network.layer as netmod
     from yowsup.stacks import YowStack
     saved = (netmod.AsyncoreConnectionDispatcher, netmod.SocketConnectionDispatcher)
+    DA = None
+    if case.get("dispatcher") == "asyncore":
+        # the library's own asynchronous dispatcher class, its loop events driven by the history
+        _AsyncDispatcher, DA = _driven_asyncore_class()
+        DA.asyncore = _AsyncoreShim(DA.asyncore)
+    else:
+        _AsyncDispatcher = _DoubleDispatcher
     netmod.AsyncoreConnectionDispatcher = netmod.SocketConnectionDispatcher = _AsyncDispatcher
     _AsyncDispatcher.made = []
     try:
         stack = stackkit.new_stack_class()((YowNetworkLayer, _NetTop), reversed=False, props={YowNetworkLayer.PROP_ENDPOINT: ("e1.whatsapp.net", 443)})
         top = stack.getLayer(1)
         out.label("net_async")
+        if DA is not None:
+            out.label("net_async_over_the_real_asyncore_dispatcher")
         n_data = 0
         timeline = []
         seen_events = [0]
@@ -188,22 +215,16 @@ def _run_net_async(case, out):
                     out.fail("lifecycle", "net_async:connect_request_ignored_while_down", {"step": step, "history": case["ops"][:step + 1]})
                     return out
             elif kind == "established" and pending:
-                d = pending[op[1] % len(pending)]
-                d.state = "up"
-                d.cb.onConnected()
+                pending[op[1] % len(pending)].h_establish()
             elif kind == "refused" and pending:
-                d = pending[op[1] % len(pending)]
-                d.state = "closed"
-                d.cb.onConnectionError(IOError("connection refused"))
+                pending[op[1] % len(pending)].h_refuse()
             elif kind == "peer_close" and ups:
-                d = ups[op[1] % len(ups)]
-                d.state = "closed"
-                d.cb.onDisconnected()
+                ups[op[1] % len(ups)].h_peer_close()
             elif kind == "disconnect_request" and live:
                 stack.broadcastEvent(YowLayerEvent(YowNetworkLayer.EVENT_STATE_DISCONNECT, reason="requested"))
             elif kind == "data" and ups:
                 n_data += 1
-                ups[op[1] % len(ups)].cb.onRecvData(b"in-%d" % n_data)
+                ups[op[1] % len(ups)].h_data(b"in-%d" % n_data)
             elif kind == "send":
                 top.send(b"out-%d" % step)
             elif kind == "loop":
@@ -253,6 +274,8 @@ def _run_net_async(case, out):
         return out
     finally:
         netmod.AsyncoreConnectionDispatcher, netmod.SocketConnectionDispatcher = saved
+        if DA is not None:
+            DA.asyncore = DA.asyncore._real
 
 
 def run_case(case):
@@ -862,10 +885,17 @@ def net_async_strategy():
                    st.tuples(st.just("established"), sel).map(list), st.tuples(st.just("refused"), sel).map(list),
                    st.tuples(st.just("peer_close"), sel).map(list), st.just(["disconnect_request"]), st.tuples(st.just("data"), sel).map(list),
                    st.just(["send"]), st.just(["loop"]))
-    return st.lists(op, min_size=2, max_size=14).map(lambda ops: {"sub": "net_async", "ops": [["connect_request"]] + ops})
+    return st.tuples(st.lists(op, min_size=2, max_size=14), st.sampled_from(["double", "asyncore"])).map(
+        lambda t: dict({"sub": "net_async", "ops": [["connect_request"]] + t[0]}, **({"dispatcher": "asyncore"} if t[1] == "asyncore" else {})))
 
 
 def _enum_net_async():
+    for c in _enum_net_async_double():
+        yield c
+        yield dict(c, dispatcher="asyncore")
+
+
+def _enum_net_async_double():
     yield {"sub": "net_async", "ops": [["connect_request"], ["connect_request"], ["established", 0], ["established", 0], ["data", 0], ["loop"]]}
     yield {"sub": "net_async", "ops": [["connect_request"], ["established", 0], ["connect_request"], ["data", 0], ["peer_close", 0], ["loop"],
                                        ["connect_request"], ["established", 0], ["send"]]}
